@@ -317,6 +317,7 @@ def _run_faulted(case, pre, plan_faults, labels, log, out, second_party=None, sp
 def run_case(case):
     out = core.Outcome()
     log = core.EventLog(keep=False)
+    S.fresh_module()
     pre = Pre(case)
     fault_runs = 0
     if case.get('faults') is not None:
